@@ -154,6 +154,7 @@ class FlowDT(DT):
         self.pinned: set[str] = set()
         self.loops = 0
         self.gen_loops: dict[str, list] = {}     # generic loop -> linear forms of the number of iterations
+        self.range_of: dict[str, tuple] = {}     # generic loop over a range -> (start, stop, step)
         self.cmpinfo: dict[str, tuple] = {}      # atom key -> (op type, left term, right term)
         self.raw: dict[int, Any] = {}            # effect number -> unrendered payload (terms)
         self.domain_reads: dict[str, Any] = {}   # path -> term, for terms enumerated over the domain of their type
@@ -173,6 +174,7 @@ class FlowDT(DT):
         self.copies = 0
         self.yields = []
         self.gen_loops = {}
+        self.range_of = {}
         self.raw = {}
         if self.root_cls is None and fi.cls:
             self.root_cls = fi.cls
@@ -321,7 +323,11 @@ class FlowDT(DT):
                 return self._n_lins(it.items[0])
             return [d for x in it.items for d in self._n_lins(x)]          # zip: (strict) every member has the common length
         if isinstance(it, Sym):
-            return [{f"len({it.path})": 1}]
+            out = [{f"len({it.path})": 1}]
+            if isinstance(it, CallV) and it.fn in ("iter_rows", "rows") and it.recv:      # polars: a frame yields `height` rows
+                rp = it.recv.path if isinstance(it.recv, Sym) else it.recv
+                out += [{f"{rp}.height": 1}, {f"len({rp})": 1}]
+            return out
         return []
 
     def _elem(self, x, idx: Sym):
@@ -352,6 +358,23 @@ class FlowDT(DT):
             raise Unsupported("zip of a concrete and a symbolic sequence")
         return Sym(f"{self.show(x)}[{idx.path}]")
 
+    def assign(self, t, v, env):
+        if isinstance(t, (ast.Tuple, ast.List)):
+            vv = self.concrete(v)
+            if isinstance(vv, Sym):                                  # unpacking of a symbolic sequence: structured element terms
+                for i, a in enumerate(t.elts):
+                    self.assign(a, SubV(f"{vv.path}[{i}]", None, vv, i), env)
+                return
+        return super().assign(t, v, env)
+
+    def _begin_generic(self, it) -> Sym:
+        self.loops += 1
+        idx = Sym(f"#i{self.loops}")
+        self.gen_loops[idx.path] = self._n_lins(it)
+        if isinstance(it, SymIter) and it.kind == "range":
+            self.range_of[idx.path] = tuple(it.items)
+        return idx
+
     @staticmethod
     def _generic_seq(it) -> bool:
         return isinstance(it, (list, tuple)) and any(isinstance(e, Marker) for e in it)
@@ -363,6 +386,8 @@ class FlowDT(DT):
     def stmt(self, s, env):
         if isinstance(s, ast.For):
             it = self.concrete(self.ev(s.iter, env))
+            if self._generic_seq(it) and all(isinstance(x, Marker) for x in it):
+                it = []                                      # filled by a generic iteration that added nothing
             if isinstance(it, (list, tuple, range, dict)) and not self._generic_seq(it):
                 try:
                     for x in it:
@@ -376,9 +401,7 @@ class FlowDT(DT):
                 else:
                     self.block(s.orelse, env)
                 return
-            self.loops += 1
-            idx = Sym(f"#i{self.loops}")
-            self.gen_loops[idx.path] = self._n_lins(it)
+            idx = self._begin_generic(it)
             lists = self._accumulators(env)
             for lst in lists:
                 lst.append(Marker("begin", idx.path))
@@ -440,38 +463,67 @@ class FlowDT(DT):
                 self.cmpinfo[f"{self.show(lc)} {_OPS[type(op)]} {self.show(rc)}"] = (type(op), lc, rc)
         return super().compare(op, lc, rc, node)
 
-    def _position_atom(self, op, d: dict):
-        """a comparison of the position of a generic iteration with the ends of the iterated collection: the atoms
-        `<loop> is first` / `<loop> is last` (0 <= position <= n-1 is known), None if it is some other condition"""
+    def _position_kind(self, op, d: dict):
+        """classify `d op 0` as a comparison of the position of a generic iteration with the ends of the iterated
+        collection (0 <= position <= n-1 is known): (loop, 'first'|'last', 'F'|'!F') for an atom, a bool when it is decided
+        by the bounds, None if it is some other condition"""
         for idx, n_lins in self.gen_loops.items():
             c = d.get(idx)
             if c not in (1, -1):
                 continue
             dd, o = (d, op) if c == 1 else ({k: -x for k, x in d.items()}, _FLIP[op])
             rest = {k: x for k, x in dd.items() if k != idx}
-            kind = None
             if set(rest) <= {""}:                            # position  o  k
                 k = -rest.get("", 0)
                 kind = {ast.Eq: False if k < 0 else "F" if k == 0 else None, ast.NotEq: True if k < 0 else "!F" if k == 0 else None,
                         ast.Lt: False if k <= 0 else "F" if k == 1 else None, ast.LtE: False if k < 0 else "F" if k == 0 else None,
                         ast.Gt: True if k < 0 else "!F" if k == 0 else None, ast.GtE: True if k <= 0 else "!F" if k == 1 else None}[o]
-                name = "first"
-            else:
-                for nl in n_lins:                            # position  o  n - m
-                    t = lin_add(rest, nl)
-                    if set(t) <= {""}:
-                        m = t.get("", 0)
-                        kind = {ast.Eq: False if m <= 0 else "F" if m == 1 else None, ast.NotEq: True if m <= 0 else "!F" if m == 1 else None,
-                                ast.Lt: True if m <= 0 else "!F" if m == 1 else None, ast.LtE: True if m <= 1 else "!F" if m == 2 else None,
-                                ast.Gt: False if m <= 1 else "F" if m == 2 else None, ast.GtE: False if m <= 0 else "F" if m == 1 else None}[o]
-                        name = "last"
-                        break
-            if kind is None:
-                return None
-            if isinstance(kind, bool):
-                return kind
-            t = self.atom(f"{idx} is {name}", [True, False])
-            return t if kind == "F" else not t
+                return kind if kind is None or isinstance(kind, bool) else (idx, "first", kind)
+            for nl in n_lins:                                # position  o  n - m
+                t = lin_add(rest, nl)
+                if set(t) <= {""}:
+                    m = t.get("", 0)
+                    kind = {ast.Eq: False if m <= 0 else "F" if m == 1 else None, ast.NotEq: True if m <= 0 else "!F" if m == 1 else None,
+                            ast.Lt: True if m <= 0 else "!F" if m == 1 else None, ast.LtE: True if m <= 1 else "!F" if m == 2 else None,
+                            ast.Gt: False if m <= 1 else "F" if m == 2 else None, ast.GtE: False if m <= 0 else "F" if m == 1 else None}[o]
+                    return kind if kind is None or isinstance(kind, bool) else (idx, "last", kind)
+            return None
+        return None
+
+    def _position_atom(self, op, d: dict):
+        got = self._position_kind(op, d)
+        if got is None or isinstance(got, bool):
+            return got
+        idx, name, kind = got
+        t = self.atom(f"{idx} is {name}", [True, False])
+        return t if kind == "F" else not t
+
+    def cond_value(self, v: dict, op, a, b):
+        """truth value of the condition `a op b` in the row with valuation v; None when the row did not consult it"""
+        la, lb = lin_of(a), lin_of(b)
+        if la is not None and lb is not None and op in _FLIP:
+            d = lin_add(la, lb, -1)
+            if set(d) <= {""}:
+                return _cmp(op(), d.get("", 0), 0)
+            got = self._position_kind(op, d)
+            if isinstance(got, bool):
+                return got
+            if got is not None:
+                t = v.get(f"{got[0]} is {got[1]}")
+                return None if t is None else (t if got[2] == "F" else not t)
+
+        def same(x, y):
+            return (x.path == y.path) if isinstance(x, Sym) and isinstance(y, Sym) else (not isinstance(x, Sym) and not isinstance(y, Sym) and type(x) is type(y) and x == y)
+        neg = {ast.Eq: ast.NotEq, ast.NotEq: ast.Eq, ast.Lt: ast.GtE, ast.GtE: ast.Lt, ast.Gt: ast.LtE, ast.LtE: ast.Gt}
+        for key, (o, l, r) in self.cmpinfo.items():
+            if key not in v or o not in _FLIP:
+                continue
+            for o2, l2, r2 in ((o, l, r), (_FLIP[o], r, l)):
+                if same(l2, a) and same(r2, b):
+                    if o2 is op:
+                        return v[key]
+                    if neg[o2] is op:
+                        return not v[key]
         return None
 
     def ev_Attribute(self, n, env):
@@ -589,9 +641,7 @@ class FlowDT(DT):
                     return
                 if not isinstance(it, (Sym, SymIter, list, tuple)):
                     raise _Symbolic()
-                self.loops += 1                      # one generic iteration, as for a for-statement
-                idx = Sym(f"#i{self.loops}")
-                self.gen_loops[idx.path] = self._n_lins(it)
+                idx = self._begin_generic(it)       # one generic iteration, as for a for-statement
                 out.append(Marker("begin", idx.path))
                 self.effect("loop-begin", idx.path)
                 e2 = dict(e)
@@ -633,12 +683,12 @@ class FlowDT(DT):
             return (l if isinstance(l, str) else "‹" + l.path + "›") + (r if isinstance(r, str) else "‹" + r.path + "›")
         return super().binop(op, l, r, node)
 
-    def opaque_sym(self, name: str, args, kw=None) -> Sym:
+    def opaque_sym(self, name: str, args, kw=None, recv=None) -> Sym:
         vals = [self.concrete(x) if not isinstance(x, (list, tuple, dict)) else x for x in args]
         a = [str(self.show(x)) for x in vals]
         a += [f"{k}={self.show(v)}" for k, v in (kw or {}).items()]
-        recv, _dot, fn = name.rpartition(".")
-        return CallV(f"{name}({', '.join(a)})", None, fn, recv, tuple(vals), tuple((kw or {}).items()))
+        rtxt, _dot, fn = name.rpartition(".")
+        return CallV(f"{name}({', '.join(a)})", None, fn, recv if recv is not None else rtxt, tuple(vals), tuple((kw or {}).items()))
 
     def may_inline(self, fi) -> bool:
         if fi.short.split(".")[-1] in self.opaque:
@@ -686,6 +736,7 @@ class FlowDT(DT):
                     if isinstance(step, int) and step > 0 and lin_of(start) is not None and lin_of(stop) is not None:
                         return SymIter("range", [start, stop, step], str(self.show(stop)))
                     return Sym("range(" + ", ".join(str(self.show(v)) for v in args) + ")")
+                args = [[] if self._generic_seq(a) and all(isinstance(x, Marker) for x in a) else a for a in args]     # a generic iteration that added nothing
                 if nm == "enumerate":
                     start = kw.get("start", args[1] if len(args) > 1 else 0)
                     if isinstance(args[0], (list, tuple, range)) and isinstance(start, int) and not self._generic_seq(args[0]):
@@ -737,6 +788,12 @@ class FlowDT(DT):
             if bound is None and nm not in _DT_BUILTINS:
                 fi = env.get("__fi__")
                 r = self.pm.resolve(fi.module, nm) if fi else None
+                if r is not None and r[0] == "class":
+                    kw = {k.arg: self.ev(k.value, env) for k in n.keywords}
+                    for a in n.args:
+                        self.ev(a, env)
+                    self.effect("construct", r[1].name, {k: self.show(v) for k, v in kw.items()}, raw=dict(kw))
+                    return Sym(f"{r[1].name}(…)#{len(self.run_state.effects)}", r[1].name)
                 if r is None or r[0] == "func" or r[0] == "ext":
                     args = [self.ev(a, env) for a in n.args]
                     kw = {k.arg: self.ev(k.value, env) for k in n.keywords}
@@ -830,7 +887,7 @@ class FlowDT(DT):
         got = self.pm.find_method(bc, m) if bc else None
         if got is not None and self.may_inline(got):
             return self.invoke(got, base, args, n, env, kw)
-        return self.opaque_sym(f"{base.path}.{m}", args, kw)
+        return self.opaque_sym(f"{base.path}.{m}", args, kw, recv=base)
 
 
 class _Lit(ast.expr):
@@ -954,7 +1011,7 @@ RENDER_ORDER = ["generate_page_break", "encode_title", "encode_subline", "_gener
 RENDER_PLACED = {"encode_title": ("rtf_title", "page_title"), "encode_subline": ("rtf_subline", "page_title"),
                  "encode_footnote": ("rtf_footnote", "page_footnote"), "encode_source": ("rtf_source", "page_source")}
 RELEVANT = ("rtf_title", "rtf_subline", "rtf_footnote", "rtf_source", "rtf_page.page_", "is_first_page", "is_last_page", "needs_header",
-            "rtf_column_header")
+            "rtf_column_header", " is first", " is last")
 
 
 def render_table(ctx: Ctx) -> dict:
@@ -1084,137 +1141,142 @@ def r06_2(ctx: Ctx) -> None:
 FIG_EMIT = {"encode_title", "encode_subline", "encode_footnote", "encode_source", "_encode_single_figure"}
 
 
-def _fig_expected(v: dict, n: int, with_subline: bool = True) -> list[str]:
+FIG_COMPONENTS = (("encode_title", "rtf_title", "page_title"), ("encode_subline", "rtf_subline", "page_title"), ("_encode_single_figure", None, None),
+                  ("encode_footnote", "rtf_footnote", "page_footnote"), ("encode_source", "rtf_source", "page_source"))
+
+
+def _fig_expected(v: dict, first, last) -> list[tuple[str, Any]]:
+    """(piece, shown) of ONE figure page, in the specified order; shown is None when the specification depends on a position
+    condition (first / last figure) that the evaluated path did not consult"""
     out = []
-    for k in range(n):
-        first, last = k == 0, k == n - 1
-        for callee, comp, field in (("encode_title", "rtf_title", "page_title"), ("encode_subline", "rtf_subline", "page_title"), ("_encode_single_figure", None, None),
-                                    ("encode_footnote", "rtf_footnote", "page_footnote"), ("encode_source", "rtf_source", "page_source")):
-            if comp is None:
-                out.append(callee)
-                continue
-            present, _c = _presence(v, comp)
-            if present and spec_show(v[f"document.rtf_page.{field}"], first, last):
-                out.append(callee)
-        if not last:
-            out.append("\\page")
+    for callee, comp, field in FIG_COMPONENTS:
+        if comp is None:
+            out.append((callee, True))
+            continue
+        present, _c = _presence(v, comp)
+        loc = v[f"document.rtf_page.{field}"]
+        sh = True if loc == "all" else first if loc == "first" else last if loc == "last" else False
+        out.append((callee, False if not present else sh))
+    out.append(("\\page", None if last is None else not last))
     return out
 
 
+def iteration_pieces(ret):
+    """(pieces outside any generic iteration, {loop: pieces of its generic iteration}) of a returned accumulator; a piece is the
+    name of the emitter whose result it is, or 'lit:<text>'"""
+    outside, inside = [], {}
+    stack = []
+    for x in _flat(ret):
+        if isinstance(x, Marker):
+            if x.kind == "begin":
+                stack.append(x.loop)
+                inside.setdefault(x.loop, [])
+            elif stack:
+                stack.pop()
+            continue
+        nm = emit_of(x)
+        piece = nm if nm is not None else ("lit:" + x if isinstance(x, str) else None)
+        if piece is None:
+            continue
+        (inside[stack[-1]] if stack else outside).append(piece)
+    return outside, inside
+
+
 def figure_path_table(ctx: Ctx) -> dict:
+    """_encode_figure_only evaluated over a symbolic document; the per-figure loop is ONE generic iteration whose position
+    conditions are the atoms `is first` / `is last`"""
     memo = ctx.__dict__.setdefault("_memo", {}).get("figure_table")
     if memo is not None:
         return memo
     pm = ctx.pm
     fi = pm.func("UnifiedRTFEncoder._encode_figure_only")
-    out = {"fi": fi, "rows": [], "error": None}
+    out = {"fi": fi, "rows": [], "error": None, "dt": None}
     ctx.__dict__["_memo"]["figure_table"] = out
     ps = [a.arg for a in fi.node.args.args]
     if len(ps) != 2:
         out["error"] = "_encode_figure_only no longer takes (self, document)"
         return out
     doc = ps[1]
-    for n in (1, 2, 3):
-        figs, fmts = [Sym(f"fig{k}") for k in range(n)], [Sym(f"fmt{k}") for k in range(n)]
-        dt = FlowDT(pm, atoms={k.replace("document.", doc + "."): v for k, v in PLACEMENT_ATOMS.items()}, effect_calls=FIG_EMIT, opaque={"_get_dimension"},
-                    classes={doc: "RTFDocument", "self": "UnifiedRTFEncoder"}, relevant=RELEVANT, regime=True, max_atoms=40,
-                    call_model={"rtf_read_figure": lambda a, k, figs=figs, fmts=fmts: (list(figs), list(fmts))})
-        try:
-            rows = dt.table(fi, {"self": Sym("self", "UnifiedRTFEncoder"), doc: Sym(doc, "RTFDocument")}, limit=40000)
-        except (Unsupported, NeedAtom) as e:
-            out["error"] = f"_encode_figure_only is outside the decision-table subset ({e})"
-            return out
-        for v, r in rows:
-            v = {k.replace(doc + ".", "document."): x for k, x in v.items()}
-            out["rows"].append((n, v, r))
+    dt = FlowDT(pm, atoms={k.replace("document.", doc + "."): v for k, v in PLACEMENT_ATOMS.items()}, effect_calls=FIG_EMIT, opaque={"_get_dimension", "rtf_read_figure"},
+                classes={doc: "RTFDocument", "self": "UnifiedRTFEncoder"}, relevant=RELEVANT, regime=True, max_atoms=40)
+    try:
+        rows = dt.table(fi, {"self": Sym("self", "UnifiedRTFEncoder"), doc: Sym(doc, "RTFDocument")}, limit=40000)
+    except (Unsupported, NeedAtom) as e:
+        out["error"] = f"_encode_figure_only is outside the decision-table subset ({e})"
+        return out
+    out["dt"] = dt
+    out["doc"] = doc
+    for v, r in rows:
+        v = {k.replace(doc + ".", "document."): x for k, x in v.items()}
+        out["rows"].append((v, r))
     return out
 
 
 def placement_rule(ctx: Ctx, rule: str, figure_only: bool = False) -> None:
-    """figure-only documents: for 1, 2 and 3 figures and every configuration, the sequence of pieces that reaches the
-    output equals, page by page, [title][subline] figure [footnote][source] (\\page unless last), each placed
-    component present ∧ spec(placement field, first, last)"""
+    """figure-only documents: in the generic iteration of the per-figure loop, for every valuation of presence x placement x
+    (is first, is last), the pieces that reach the output are [title][subline] figure [footnote][source] (\\page unless last),
+    each placed component present ∧ spec(placement field, first, last); nothing placed is emitted outside the loop"""
     t = figure_path_table(ctx)
     fi = t["fi"]
     if t["error"]:
         ctx.gap(rule, t["error"])
         return
-    bad: dict[str, tuple] = {}
+    bad: dict[str, dict] = {}
     n_rows = 0
-    for n, v, r in t["rows"]:
+    names = {"encode_title": "title", "encode_subline": "subline", "encode_footnote": "footnote", "encode_source": "source", "_encode_single_figure": "figure", "\\page": "page break"}
+    for v, r in t["rows"]:
         if r.raised is not None:
             continue
-        seq = emitted(r.ret)
-        if seq is None:
+        if not isinstance(r.ret, (list, tuple)):
             ctx.gap(rule, "the figure path does not return the joined sequence of its parts")
             return
-        got = []
-        for nm, _l in seq:
-            if nm in FIG_EMIT:
-                got.append(nm)
-            elif nm.startswith("lit:") and nm[4:].strip() == "\\page":
-                got.append("\\page")
+        outside, inside = iteration_pieces(r.ret)
+        loops = [lp for lp, ps in inside.items() if any(p in FIG_EMIT for p in ps)]
+        if [p for p in outside if p in FIG_EMIT] or len(loops) != 1:
+            ctx.gap(rule, f"the figure path emits placed components / figures outside one per-figure loop ({[p for p in outside if p in FIG_EMIT][:3]}, {len(loops)} loop(s))")
+            return
+        lp = loops[0]
+        got = [p if p in FIG_EMIT else "\\page" for p in inside[lp] if p in FIG_EMIT or (p.startswith("lit:") and p[4:].strip() == "\\page")]
+        first, last = v.get(f"{lp} is first"), v.get(f"{lp} is last")
         n_rows += 1
         free = [f for f in ("page_title", "page_footnote", "page_source") if f"document.rtf_page.{f}" not in v]
         for combo in itertools.product(PLACEMENTS, repeat=len(free)):
             v2 = {**v, **{f"document.rtf_page.{f}": c for f, c in zip(free, combo)}}
-            want = _fig_expected(v2, n)
+            want = _fig_expected(v2, first, last)
             if figure_only:
-                want_c, got_c = [x for x in want if x != "encode_subline"], [x for x in got if x != "encode_subline"]
+                want = [(c, sh) for c, sh in want if c != "encode_subline"]
+                got_c = [x for x in got if x != "encode_subline"]
             else:
-                want_c, got_c = want, got
-            if got_c != want_c:
-                # describe the first difference by component: the figure pages it lands on
-                comps = [c for c in ("encode_title", "encode_subline", "encode_footnote", "encode_source", "_encode_single_figure", "\\page")
-                         if _pages_of(got_c, c) != _pages_of(want_c, c)]
-                if comps:
-                    c = comps[0]
-                    name = c.replace("encode_", "").replace("_single_figure", "figure").replace("\\page", "page break")
-                    kind = f"{name} placement"
-                    detail = f"{name} after/on figure pages {_pages_of(got_c, c)} of {n}, specification {_pages_of(want_c, c)}"
-                else:
-                    kind = "order of the pieces"
-                    detail = f"pieces {got_c[:8]} instead of {want_c[:8]}"
-                shown = {a: b for a, b in v2.items() if "rtf_page.page_" in a or "rtf_" in a and a.startswith(("bool(", "document", "copy"))}
-                shown["what"] = detail
-                bad.setdefault(kind, (n, shown))
+                got_c = got
+            shown = {a: b for a, b in v2.items() if "rtf_page.page_" in a or " is " in a or "rtf_" in a and a.startswith(("bool(", "document", "copy"))}
+            diff = None
+            for c, sh in want:
+                k = got_c.count(c)
+                if sh is None:
+                    fld = next((f for cc, _comp, f in FIG_COMPONENTS if cc == c), None)
+                    cond = "first" if fld and v2.get(f"document.rtf_page.{fld}") == "first" else "last"
+                    diff = (f"{names[c]} placement", f"{names[c]} is {'emitted' if k else 'left out'} without consulting whether the figure is the {cond} one")
+                elif k != (1 if sh else 0):
+                    diff = (f"{names[c]} placement", f"{names[c]} emitted {k}x on a figure page where the specification says {'once' if sh else 'not at all'}")
+                if diff:
+                    break
+            if diff is None and got_c != [c for c, sh in want if sh]:
+                diff = ("order of the pieces", f"pieces {got_c[:8]} instead of {[c for c, sh in want if sh][:8]}")
+            if diff:
+                bad.setdefault(diff[0], {**shown, "what": diff[1]})
                 break
-    ctx.instance(rule, fi.where(), f"figure path: emitted sequence for 1, 2, 3 figures over {n_rows} configurations equals per page [title][subline] figure [footnote][source] "
-                 f"(\\page unless last) with spec placement; {len(bad)} kind(s) of disagreement")
-    for k, (n, ex) in sorted(bad.items()):
+    ctx.instance(rule, fi.where(), f"figure path: ONE generic iteration of the per-figure loop over {n_rows} valuations of presence x placement x (is first, is last): "
+                 f"emitted pieces equal [title][subline] figure [footnote][source] (\\page unless last) with spec placement; {len(bad)} kind(s) of disagreement")
+    if not n_rows:
+        ctx.gap(rule, "no evaluated path of the figure path returns its parts")
+    for k, ex in sorted(bad.items()):
         what = ex.pop("what", k)
-        ctx.violation(rule, fi.short, k, fi.where(), f"figure path: {what}; e.g. {n} figure(s), {ex}")
+        ctx.violation(rule, fi.short, k, fi.where(), f"figure path: {what}; e.g. {ex}")
 
-
-def _pages_of(seq: list[str], comp: str) -> list[int]:
-    """1-based figure pages on which `comp` appears (a page = one figure; header pieces precede it, trailers follow)"""
-    out, figs = [], 0
-    for x in seq:
-        if x == "_encode_single_figure":
-            figs += 1
-            if comp == x:
-                out.append(figs)
-        elif x == comp:
-            out.append(figs + 1 if comp in ("encode_title", "encode_subline") else figs)
-    return out
 
 # ------------------------------------------------------------------------------------------------ R06.3
 
 STRATEGIES = ("DefaultPaginationStrategy.paginate", "PageByStrategy.paginate", "SublineStrategy.paginate")
-
-
-def _pages_model(n: int):
-    """concrete model of 'the distinct page numbers of the row metadata, ascending' = 1..n, for the polars idioms
-    metadata["page"].unique()... and metadata.group_by("page")...; anything else stays symbolic"""
-    def model(path: str):
-        if re.search(r"\[page\]\.(unique|n_unique)\(", path) and "filter(" not in path.split("[page]")[-1]:
-            return list(range(1, n + 1))
-        if re.search(r"\.group_by\(page[,)]", path) or re.search(r"\.unique\((subset=)?\[?page", path):
-            return [RowModel(k, "pagerow") for k in range(1, n + 1)]
-        if re.search(r"^sorted\(set\(.*\[page\]", path):
-            return list(range(1, n + 1))
-        return None
-    return model
 
 
 def _builds_pages(pm, fi, depth: int = 3) -> bool:
@@ -1230,10 +1292,31 @@ def _builds_pages(pm, fi, depth: int = 3) -> bool:
     return False
 
 
+def truth_of(v: dict, x):
+    """truth value of a term under the valuation of a row (None: the row does not decide it)"""
+    if isinstance(x, Sym):
+        return v.get(f"bool({x.path})")
+    if isinstance(x, Marker):
+        return None
+    return bool(x)
+
+
+def loop_of(effects, k: int) -> str | None:
+    """the generic loop iteration inside which effect number k (1-based) happens"""
+    open_ = []
+    for e in effects[:k - 1]:
+        if e[0] == "loop-begin":
+            open_.append(e[1])
+        elif e[0] == "loop-end" and open_ and open_[-1] == e[1]:
+            open_.pop()
+    return open_[-1] if open_ else None
+
+
 def r06_3(ctx: Ctx) -> None:
-    """each strategy is evaluated on a concrete model of the page numbering (pages 1..n, n = 1 and 3): every
-    PageContext it constructs must carry is_first_page = (number == 1), is_last_page = (number == n),
-    needs_header = pageby_header ∨ first, total_pages = n"""
+    """each strategy is evaluated over a symbolic pagination context; the loop over the (symbolic) collection of pages
+    is ONE generic iteration.  Every PageContext constructed there must carry, as a function of the consulted
+    conditions: is_first_page = (page_number == 1), is_last_page = (page_number == total_pages) with total_pages the
+    number of iterated pages, needs_header = pageby_header ∨ first page"""
     pm = ctx.pm
     for short in STRATEGIES:
         fi = pm.func(short)
@@ -1242,62 +1325,95 @@ def r06_3(ctx: Ctx) -> None:
             ctx.gap("R06.3", f"{short} no longer takes (self, context)")
             continue
         cx = ps[1]
+        dt = FlowDT(pm, classes={cx: "PaginationContext", "self": fi.cls}, inline=lambda f: _builds_pages(pm, f), max_atoms=30)
+        try:
+            rows = dt.table(fi, {"self": Sym("self", fi.cls), cx: Sym(cx, "PaginationContext")}, limit=20000)
+        except (Unsupported, NeedAtom) as e:
+            ctx.gap("R06.3", f"{short}: outside the interpretable subset ({str(e)[:120]})")
+            continue
         seen = 0
         bad: dict[str, str] = {}
-        err = None
-        for n in (1, 3):
-            dt = FlowDT(pm, classes={cx: "PaginationContext", "self": fi.cls}, seq_model=_pages_model(n), inline=lambda f: _builds_pages(pm, f), max_atoms=30)
-            try:
-                rows = dt.table(fi, {"self": Sym("self", fi.cls), cx: Sym(cx, "PaginationContext")}, limit=20000)
-            except (Unsupported, NeedAtom) as e:
-                err = str(e)
-                break
-            for v, r in rows:
-                ph = v.get(f"bool({cx}.rtf_body.pageby_header)")
-                undecided = [k for k in v if re.search(r"\[page\]|group_by\(page|\.unique\(", k) and not re.search(r"\.height == 0$|filter\(", k)]
-                if undecided:
-                    err = f"a page flag depends on `{undecided[0][:80]}`, which the page numbering model (pages 1..{n}) does not decide"
-                    continue
-
-                def as_bool(x):
-                    if isinstance(x, bool):
-                        return x
-                    if isinstance(x, str) and f"bool({x})" in v:
-                        return v[f"bool({x})"]
-                    return None
-                for e in r.effects:
-                    if e[0] != "construct" or e[1] != "PageContext":
-                        continue
-                    kw = e[2]
-                    pn = kw.get("page_number")
-                    if not isinstance(pn, int) or isinstance(pn, bool) or not 1 <= pn <= n:
-                        err = f"page_number `{pn}` is not one of the modelled page numbers 1..{n}"
-                        continue
-                    seen += 1
-                    first, last = pn == 1, pn == n
-                    f_, l_, nh, tp = as_bool(kw.get("is_first_page")), as_bool(kw.get("is_last_page")), as_bool(kw.get("needs_header")), kw.get("total_pages")
-                    if f_ is None or l_ is None or nh is None:
-                        err = f"page flags ({kw.get('is_first_page')}, {kw.get('is_last_page')}, {kw.get('needs_header')}) are not decided by the page numbering model"
-                        continue
-                    if f_ != first:
-                        bad.setdefault(f"is_first_page={f_} on page {pn} of {n}", "is_first_page must hold exactly on page 1")
-                    if l_ != last:
-                        bad.setdefault(f"is_last_page={l_} on page {pn} of {n}", "is_last_page must hold exactly on the last page")
-                    if tp != n:
-                        bad.setdefault(f"total_pages={tp} for {n} page(s)", "total_pages must be the number of pages")
-                    if ph is None and not first:
-                        bad.setdefault("needs_header ignores pageby_header", f"needs_header={nh} on page {pn} without consulting rtf_body.pageby_header")
-                    elif nh != bool(ph or first):
-                        bad.setdefault(f"needs_header={nh} at pageby_header={ph}, page {pn} of {n}", "needs_header must be pageby_header ∨ first page")
-        if err and not bad:
-            ctx.gap("R06.3", f"{short}: {err}")
-            if not seen:
+        gaps: dict[str, None] = {}
+        firsts, lasts = set(), set()
+        for v, r in rows:
+            if r.raised is not None:
                 continue
-        if not seen:
-            ctx.gap("R06.3", f"{short}: no PageContext construction was reached on the page numbering model (pages 1..n from the row metadata)")
+            ph = v.get(f"bool({cx}.rtf_body.pageby_header)")
+            for k, e in enumerate(r.effects, 1):
+                if e[0] != "construct" or e[1] != "PageContext":
+                    continue
+                kw = r.raw.get(k, {})
+                lp = loop_of(r.effects, k)
+                if lp is None:
+                    gaps[f"a PageContext is constructed outside a loop over the pages"] = None
+                    continue
+                seen += 1
+                pn, tp = kw.get("page_number"), kw.get("total_pages")
+                if pn is None or tp is None or not all(x in kw for x in ("is_first_page", "is_last_page", "needs_header")):
+                    gaps["PageContext(...) is not given page_number, total_pages, is_first_page, is_last_page and needs_header by keyword"] = None
+                    continue
+                first = dt.cond_value(v, ast.Eq, pn, 1)
+                if first is None and lin_of(pn) is not None and set(lin_add(lin_of(pn), {lp: 1, "": 1}, -1)) <= set():
+                    first = v.get(f"{lp} is first")
+                if first is None and v.get(f"{lp} is first") is not None and isinstance(pn, Sym) and lp in pn.path:
+                    first = v.get(f"{lp} is first")                  # by position: the pages are numbered 1..n in iteration order
+                last = dt.cond_value(v, ast.Eq, pn, tp)
+                if last is None and v.get(f"{lp} is last") is not None and isinstance(pn, Sym) and lp in pn.path:
+                    last = v.get(f"{lp} is last")
+                # total_pages = number of iterated pages
+                n_lins = dt.gen_loops.get(lp, [])
+                lt = lin_of(tp)
+                if lt is not None and n_lins:
+                    diffs = [lin_add(lt, nl, -1) for nl in n_lins]
+                    if not any(not d for d in diffs):
+                        off = [d[""] for d in diffs if set(d) == {""}]
+                        if off:
+                            bad.setdefault(f"total_pages off by {off[0]}", f"total_pages is `{dt.show(tp)}`[:80], the number of iterated pages {'+' if off[0] > 0 else '-'} {abs(off[0])}")
+                        elif not re.search(r"\[page\].*(n_unique|max|unique)\(", str(dt.show(tp))):
+                            gaps[f"total_pages `{str(dt.show(tp))[:80]}` could not be related to the number of iterated pages"] = None
+                f_, l_, nh = truth_of(v, kw["is_first_page"]), truth_of(v, kw["is_last_page"]), truth_of(v, kw["needs_header"])
+                firsts.add((first, f_, last))
+                lasts.add((last, l_, first))
+                if f_ is None or l_ is None or nh is None:
+                    gaps[f"a page flag is a term the valuation does not decide (`{str(dt.show(kw['is_first_page']))[:40]}`, `{str(dt.show(kw['is_last_page']))[:40]}`, `{str(dt.show(kw['needs_header']))[:40]}`)"] = None
+                    continue
+                if first is not None and f_ != first:
+                    bad.setdefault(f"is_first_page={f_} where page_number == 1 is {first}", "is_first_page must hold exactly on page 1")
+                if last is not None and l_ != last:
+                    bad.setdefault(f"is_last_page={l_} where page_number == total_pages is {last}", "is_last_page must hold exactly on the last page")
+                if ph is True or first is True:
+                    want = True
+                elif ph is False and first is False:
+                    want = False
+                else:
+                    want = None
+                if want is not None:
+                    if nh != want:
+                        bad.setdefault(f"needs_header={nh} at pageby_header={ph}, first page={first}", "needs_header must be pageby_header ∨ first page")
+                elif ph is None and first is False:
+                    bad.setdefault("needs_header ignores pageby_header", f"needs_header={nh} on a later page without consulting rtf_body.pageby_header")
+                elif first is None and ph is False:
+                    bad.setdefault("needs_header ignores the page position", f"needs_header={nh} with pageby_header off without consulting whether the page is the first")
+                elif ph is None and first is None:
+                    bad.setdefault("needs_header ignores pageby_header", f"needs_header={nh} without consulting rtf_body.pageby_header or the page position")
+        for name, pairs, what in (("is_first_page", firsts, "page_number == 1"), ("is_last_page", lasts, "page_number == total_pages")):
+            und = {f for c, f, _o in pairs if c is None}
+            if und and not any(c is not None for c, _f, _o in pairs):
+                if len(und) == 1 and None not in und:
+                    bad.setdefault(f"{name} is constantly {und.pop()}", f"{name} does not depend on `{what}`")
+                elif all(o is not None and f == o for _c, f, o in pairs):
+                    other = "page_number == total_pages" if name == "is_first_page" else "page_number == 1"
+                    bad.setdefault(f"{name} follows {other}", f"{name} is computed from `{other}` instead of `{what}`")
+                else:
+                    gaps[f"{name} is decided without the condition `{what}` (how the flag is computed was not re-identified)"] = None
+        if not seen and not gaps:
+            ctx.gap("R06.3", f"{short}: no PageContext construction was reached in the generic iteration of the page loop")
             continue
-        ctx.instance("R06.3", fi.where(), f"{short}: {seen} PageContext constructions on the models n=1,3: (is_first, is_last, needs_header, total) = "
-                     f"(number==1, number==n, pageby_header ∨ first, n); {len(bad)} disagreement(s)")
+        if not bad:
+            for g in gaps:
+                ctx.gap("R06.3", f"{short}: {g}")
+        ctx.instance("R06.3", fi.where(), f"{short}: ONE generic iteration of the page loop, {len(rows)} valuations of the consulted conditions, {seen} PageContext constructions: "
+                     f"(is_first, is_last, needs_header, total) = (number == 1, number == total, pageby_header ∨ first, number of iterated pages); {len(bad)} disagreement(s)")
         for k, msg in sorted(bad.items()):
             ctx.violation("R06.3", short, k, fi.where(), f"{short}: {k}: {msg}")
     ctx.floor("R06.3", 3)
@@ -1568,20 +1684,36 @@ def r06_6(ctx: Ctx) -> None:
     ctx.instance("R06.6", "src/rtflite", f"page flags are set only through {ctors} PageContext(...) constructions; {n} later stores")
 
 
+ABSTRACTION = (
+    "Abstract evaluation of the syntax tree (FlowDT, an extension of the decision-table evaluator sa/dtab.DT): the analysed function is evaluated over symbolic inputs; every parameter is an "
+    "uninterpreted symbol, values are structured terms (subscript, slice, call, integer-linear form), list accumulators hold the symbolic pieces that reach the output, literals of the source are "
+    "folded; whenever a condition has an undetermined truth value the evaluation forks, so the table of ALL valuations of the consulted conditions is enumerated (no feasibility pruning, no "
+    "solver); a loop over a symbolic collection (for / comprehension / while) is evaluated as ONE generic iteration: the position is a symbol, its comparisons with the ends of the collection are "
+    "the atoms `is first` / `is last` (0 <= position <= n-1), what the iteration adds to an accumulator is bracketed, loop-carried locals of a while loop are unconstrained; loops over "
+    "literal sequences of the source are unrolled. The verdict is read off this summary and holds for every value of the symbols. Nothing of the analysed package is imported, compiled or executed.")
+
+
 def check(ctx: Ctx) -> None:
+    ctx.explain(ABSTRACTION)
     ctx.explain(
         "R06.1 the two placement predicates are evaluated as decision tables over placement x first x last (16 rows each) and "
         "equal the specification; PageRenderer.render is evaluated as a whole over symbolic (document, page) for every "
         "configuration of component presence x placement fields x first/last x needs_header, and each placed component must reach "
-        "the returned page elements iff present ∧ spec(placement field); the figure path is evaluated on concrete models of 1, 2, 3 "
-        "figures and its emitted sequence must equal the specified one page by page. R06.2 order and once-ness of the blocks in "
-        "the returned page elements, page break iff not first, headers iff needs_header. R06.3 the three strategies evaluated on "
-        "a concrete page-numbering model (pages 1..n): flags of every constructed PageContext. R06.4 who-may-convert rule plus "
+        "the returned page elements iff present ∧ spec(placement field); the figure path is evaluated over a symbolic document with ONE "
+        "generic iteration of the per-figure loop: for every valuation of presence x placement x (is first, is last) the pieces the iteration "
+        "emits must equal the specified page. R06.2 order and once-ness of the blocks in "
+        "the returned page elements, page break iff not first, headers iff needs_header. R06.3 the three strategies evaluated over a symbolic "
+        "pagination context, ONE generic iteration of the page loop: flags of the constructed PageContext as functions of the consulted "
+        "conditions (page_number == 1, page_number == total_pages, pageby_header). R06.4 who-may-convert rule plus "
         "the evaluated page-break block and document-start block (words, order, sources, shared conversion), no partial-key "
         "memoisation; landscape flag. R06.5 once-per-document emitters. R06.6 no store to page flags after pagination.")
     ctx.assume("PageContext flags are read, not recomputed, by the renderer and the processor")
-    ctx.assume("the distinct page numbers assigned by the row metadata are 1..n (see C04)")
-    ctx.undecided("numeric values of the geometry words; which concrete rows land on which page")
+    ctx.assume("the distinct page numbers assigned by the row metadata are 1..n in ascending order (see C04), so `page_number == 1` / `page_number == total_pages` identify the first / last page")
+    ctx.assume("conditions are treated as independent atoms (all combinations enumerated, also infeasible ones); in render / the figure path, conditions that mention none of the placement-relevant "
+               "names (component, placement field, page flag, loop position) are pinned to one value per regime (two regimes: every such test true / every such test false) and listed in the evidence")
+    ctx.assume("the result of an emitter call (encode_title, encode_footnote, ...) is taken to be non-empty where the code tests it before appending")
+    ctx.assume("rtf_page.margin is a sequence of six values (validated by RTFPage): it is represented as the tuple of terms margin[0..5]")
+    ctx.undecided("numeric values of the geometry words; which concrete rows land on which page; behaviour of a loop over several iterations beyond the one generic step")
     predicate_tables(ctx, "R06.1")
     r06_1_render(ctx, "R06.1")
     placement_rule(ctx, "R06.1")
